@@ -119,8 +119,8 @@ func VerifC15Programs() {
 	verifAssume(y < 1<<40) // keeps @p + 100 etc. away from int64 overflow (not the subject here)
 	verifAssume(y > -(1 << 40))
 	c, d := int64(verifChoice("c", 2)), int64(verifChoice("d", 2))
-	n := int64(verifChoice("n", 4))
-	skip, stop := int64(verifChoice("skip", 5)), int64(verifChoice("stop", 5))
+	n := int64(verifChoice("n", verifBound(4, 6))) // loop bound 0..3 (thorough 0..5)
+	skip, stop := int64(verifChoice("skip", verifBound(5, 7))), int64(verifChoice("stop", verifBound(5, 7)))
 	for name, v := range map[string]int64{"c": c, "d": d, "n": n, "skip": skip, "stop": stop} {
 		verifVar(scope, name, value.NewInteger(v))
 	}
